@@ -16,6 +16,8 @@
 (* Property level (VIOLATION): the clause operators of Server over the OBSERVED view -       *)
 (*   OneResponse, NoUnhandled, Bounded; HistoryFree (the final reply equals the reply to the *)
 (*   same request alone, modulo timestamps); for C20 traces Contained, OwnClass, FilesClosed.*)
+(* A rejection is reported as "<clause>@<site>": the first failing clause and the hazard     *)
+(* site the machine reached on that request (what known findings are keyed by).             *)
 (* Design level (DRIFT): the observed view equals the machine's (protocol, escaped class,   *)
 (*   log classes, presence and kind of reply, artefacts).                                   *)
 EXTENDS Server, TraceBase, MC_C03_consts
@@ -70,7 +72,7 @@ Consume ==
        THEN /\ StartConn(e.rq, fs) /\ ms' = "run" /\ UNCHANGED <<l, verdict, aloneD>>
        ELSE IF pc # "closed"
        THEN /\ Step /\ UNCHANGED <<l, verdict, ms, aloneD>>
-       ELSE /\ verdict' = Judge(e)
+       ELSE /\ verdict' = (IF Judge(e) = "ok" THEN "ok" ELSE Judge(e) \o "@" \o site)    \* clause @ hazard site of the machine
             /\ aloneD' = IF e.role = "alone" THEN e.digest ELSE aloneD
             /\ l' = l + 1 /\ ms' = "idle" /\ UNCHANGED vars
             /\ (IF DriftWhat(e) = "none" THEN TRUE ELSE RecordDrift(tid, l, DriftWhat(e)))
